@@ -6,6 +6,9 @@
 (*   inter  - several live iterators on one thread, next() called in the   *)
 (*            order sched; results[k] is what call k returned (<<>> = None)*)
 (*   thread - an evaluator drained on one of many concurrent threads       *)
+(*            (also the runs of a construction storm that differed from   *)
+(*            the solo run: thousands of evaluators built and drained on  *)
+(*            16 threads at once)                                          *)
 (*   bigthread - the same for runs of ~10^5 showdowns, compared through an *)
 (*            order-sensitive digest of everything observable (cards,      *)
 (*            probability bits, power indexes, winner flags)               *)
@@ -30,6 +33,7 @@ Allowed(e) ==
     [] e.op = "inter" -> InterOK(e)
     [] e.op = "thread" -> ThreadOK(e)
     [] e.op = "bigthread" -> e.digest = Rec[e.id].digest /\ e.digest[3] > 0      \* long concurrent run: same digest as alone
+    [] e.op = "storm" -> e.runs > 0          \* summary of a construction storm; each differing run is a thread event
     [] e.op = "sendsync" -> TRUE
     [] OTHER -> FALSE
 
